@@ -41,7 +41,7 @@ THEOREMS = {
     "C05": _gt("errEnum_eq") + [("Eav.Props.C05", n) for n in
             ("Eav.isIpv4_literal", "Eav.isIpv6_upper", "Eav.isIpv6_lower")] + [("Eav.Props.C05", "Eav.Props.C05." + n) for n in
             ("literal_upper", "literal_lower", "literal_family", "literal_every_mode", "literal_accepted_record",
-             "literalUpper_iff", "literalLower_iff", "literal_sandwich")] + [("Eav.Lemmas.IpSpec", "Eav.v6_4291_iff"), ("Eav.Lemmas.IpSpec", "Eav.v6_5321_iff")],
+             "literalUpper_iff", "literalLower_iff", "literal_sandwich", "email_literal")] + [("Eav.Lemmas.IpSpec", "Eav.v6_4291_iff"), ("Eav.Lemmas.IpSpec", "Eav.v6_5321_iff")],
     "C06": _gt("init_sets_all", "init_fields", "limits_eq", "lenFilter_eq") + [("Eav.Props.C06", "Eav.Props.C06." + n) for n in
             ("isAsciiDomain_ok", "isIpv4_ok", "isIpv6_ok", "checkIp_ok", "isSpecialDomain_ok", "checkTld_ok", "isUtf8Domain_ok", "isEmail_ok", "step_isEmail_ok")] +
            [("Eav.Props.C13", "Eav.Props.C13." + n) for n in ("run_inv", "free_releases", "lifecycle_releases")] +
@@ -72,7 +72,8 @@ THEOREMS = {
            [("Eav.Props.C13", "Eav.Props.C13.errstr_latest"), ("Eav.Props.C13", "Eav.Props.C13.failed_setup_keeps_mode"),
             ("Eav.Props.C19", "Eav.Props.C19.idn_failure_contained")],
     "C16": _gt("errEnum_eq", "tldTypeEnum_eq") + [("Eav.Props.C16", "Eav.Props.C16." + n) for n in
-            ("checkIp_flags", "isTld_range", "checkTld_range", "rc_shape", "no_abort", "flags", "extra_strings")],
+            ("checkIp_flags", "isTld_range", "checkTld_range", "rc_shape", "no_abort", "flags", "extra_strings")] +
+           [("Eav.Props.C05", "Eav.Props.C05.email_literal")],
     "C17": _gt("buildOpts_eq", "specials_eq") + [("Eav.Props.C17", "Eav.Props.C17." + n) for n in
             ("ascii_locals_ignore_options", "locals_ignore_underscore", "domain_ignores_local_options", "underscore_iff", "underscore_monotone",
              "rfc5322_ascii", "utf8_necessary_all_builds", "rfc20_no_effect", "rfc20_exact", "defaults_off")],
